@@ -24,7 +24,7 @@ LAYERS: Dict[str, Dict[str, Any]] = {
                    BinOps='ShapeOps', CmpOps='LtOnly', Funcs1='NoStr', Funcs2='MaxOnly', UseNeg='TRUE', UseParen='TRUE', UseCond='TRUE'),
     'shape3_small': dict(MaxStmts=1, MaxLeaves=3, MaxNodes=5, MaxNames=1, Kinds='VOnly', Idxs='Lhs0', LhsIdxs='Lhs0', Nums='NoStr',
                          BinOps='ShapeOps', CmpOps='LtOnly', Funcs1='NoStr', Funcs2='MaxOnly', UseNeg='TRUE', UseParen='TRUE', UseCond='TRUE'),
-    'shape4': dict(MaxStmts=1, MaxLeaves=4, MaxNodes=7, MaxNames=1, Kinds='VOnly', Idxs='Lhs0', LhsIdxs='Lhs0', Nums='NoStr',
+    'shape4': dict(MaxStmts=1, MaxLeaves=4, MaxNodes=8, MaxNames=1, Kinds='VOnly', Idxs='Lhs0', LhsIdxs='Lhs0', Nums='NoStr',
                    BinOps='ShapeOps', CmpOps='NoStr', Funcs1='NoStr', Funcs2='NoStr', UseNeg='TRUE', UseParen='FALSE', UseCond='TRUE'),
     # symbol merging, first-appearance order, type promotion, lags then leads, double definitions, clashes
     'merge2': dict(MaxStmts=2, MaxLeaves=1, MaxNodes=1, MaxNames=3, Kinds='AllKinds', Idxs='MergeIdxs', LhsIdxs='Lhs0', Nums='NoStr',
